@@ -2,7 +2,7 @@
 # seed.sh <property> <name> <worktree>: confirm a sub-agent's change in its scratch worktree, store it under
 # /verif/seeded/<name>/, run ./check <property> with it applied to /repo, undo, remove the worktree.
 set -u
-PID=$1; NAME=$2; WT=$3; FEAT=${SEED_FEATURES:+--features $SEED_FEATURES}
+PID=$1; NAME=$2; WT=$3; FEAT="${SEED_FEATURES:+--features $SEED_FEATURES} ${SEED_FLAGS:-}"
 D=/verif/seeded/$NAME
 mkdir -p $D
 git -C $WT diff > $D/patch.diff
